@@ -78,4 +78,11 @@ TEXT['C07'] = dict(
     design_ref='DESIGN.md section 4 (C07)',
     note='Trusted: pyvc row dialect (assumed pandas contracts for masks, .index, .loc[labels]=, drop, reset_index), z3, A-FRAME for the dependency of the tables on (_data, _prms).',
     technique='contract-based deductive verification: per-row postcondition in a row dialect + relational lemmas, z3')
+TEXT['C19'] = dict(
+    text=('Proof under floats-as-reals for shift-and-scale, min-max (incl. the derived interval) and the umbrella routines, by symbolic '
+          'execution of the real code over arrays of symbolic length plus arithmetic lemmas; step scaling is outside the contracts and only '
+          'covered by a bounded native run.'),
+    design_ref='DESIGN.md section 4 (C19)',
+    note='Trusted: pyvc element-wise numpy dialect, assumed contracts of np.nanmax / nanmin / isnan / all, z3 non-linear real arithmetic; A-REAL.',
+    technique='contract-based deductive verification: element-wise postconditions + arithmetic lemmas, z3; bounded run for step scaling')
 NA = {}
